@@ -43,6 +43,22 @@ def tokenize(src):
             toks.append(("str", src[i + 1:j]))
             i = j + 1
             continue
+        if c == "r" and i + 1 < n and src[i + 1] in '#"':
+            # raw string r"..." / r#"..."#  or raw identifier r#name (serde sees the name without r#)
+            m = re.match(r'r(#*)"', src[i:])
+            if m:
+                close = '"' + m.group(1)
+                j = src.find(close, i + len(m.group(0)))
+                if j < 0:
+                    raise RustParseError("unterminated raw string")
+                toks.append(("str", src[i + len(m.group(0)):j]))
+                i = j + len(close)
+                continue
+            m = re.match(r"r#([A-Za-z_][A-Za-z0-9_]*)", src[i:])
+            if m:
+                toks.append(("id", m.group(1)))
+                i += len(m.group(0))
+                continue
         if c.isalpha() or c == "_":
             j = i + 1
             while j < n and (src[j].isalnum() or src[j] == "_"):
